@@ -1,2 +1,171 @@
--- C01 property theorems (to be written)
-import Nq.Basic
+/-
+  C01 — Queue acceptance is all-or-nothing and durable.
+
+  Model: `Nq.QueueInject` — the acceptor of qmail-queue's system-call traces, the abstract file
+  system of one queue entry and the crash relation.  Tie: every trace of the real qmail-queue
+  recorded under qsim (all inputs × read chunkings × single faults) is replayed through `accept`
+  by `drv_c01`; constants `ADDR`, `DEATH`, `OSSIFIED` are regenerated from the sources.
+
+  The theorems quantify over **every accepted trace** — i.e. every message, envelope, chunking of
+  reads and writes, short write, EINTR and failing call — and, because every prefix of an accepted
+  trace is accepted (`C01_prefix_closed`), over **every instant** at which the process or the
+  machine may stop; `CrashOf` lets every file that was not fsynced since its last change come back
+  with arbitrary content.
+-/
+import Nq.Lemmas.QueueEnv
+
+namespace Nq.Props.C01
+open Nq Nq.QueueInject Nq.Lemmas.QI
+
+/-- the trace is a run of qmail-queue from its start, and `fs` the queue entry it produced -/
+def Run (p : Params) (evs : List Ev) (s : St) : Prop := acceptAll p {} evs = some s
+
+/-- Crash points are covered: each prefix of a run is a run. -/
+theorem C01_prefix_closed (p : Params) (evs : List Ev) (s : St) (k : Nat) (h : Run p evs s) :
+    ∃ s', Run p (evs.take k) s' := accept_prefix p evs k {} s h
+
+/-- **All-or-nothing, at every instant, under every crash.** If after a crash the entry is visible
+to the daemon (`todo/<n>` exists) then the message file exists and holds exactly the Received line
+followed by the bytes supplied, the envelope supplied was well-formed, and `todo/<n>` holds exactly
+the uid/pid header followed by the sender and every recipient in order. -/
+theorem C01_atomic (p : Params) (evs : List Ev) (s : St) (h : Run p evs s) (fs' : FS)
+    (hc : CrashOf (applyAll {} evs) fs') (ht : fs'.todoName = true) :
+    fs'.messName = true ∧ fs'.messF.cur = p.received ++ p.msg ∧
+    (scan p.env).1 = .done ∧ fs'.intdF.cur = p.hdr ++ (scan p.env).2 := by
+  have hinv := run_inv p evs {} s {} (inv_init p) h
+  obtain ⟨c1, c2, c3, c4, c5, c6⟩ := hc
+  have hq := inv_todo p s _ hinv (by rw [← c4]; exact ht)
+  obtain ⟨⟨_, n2, _, _⟩, hm, he1, he2⟩ := hq
+  have hfull := scan_take p.env s.envRead (Or.inl he1)
+  refine ⟨by rw [c2]; exact n2, ?_, by rw [hfull]; exact he1, ?_⟩
+  · rw [c5 (by rw [hm])]; rw [hm]
+  · rw [c6 (by rw [he2]), he2, hfull]
+
+/-- **Success is durable and visible**: when qmail-queue exits 0 the entry is visible and complete,
+and stays so across any crash. -/
+theorem C01_success (p : Params) (evs : List Ev) (s : St) (h : Run p evs s) (hx : s.pc = .exited 0)
+    (fs' : FS) (hc : CrashOf (applyAll {} evs) fs') :
+    fs'.todoName = true ∧ fs'.messName = true ∧ fs'.messF.cur = p.received ++ p.msg ∧
+    (scan p.env).1 = .done ∧ fs'.intdF.cur = p.hdr ++ (scan p.env).2 := by
+  have hinv := run_inv p evs {} s {} (inv_init p) h
+  have hq : Queued p s (applyAll {} evs) := by simpa [QInv, hx] using hinv
+  have ht : fs'.todoName = true := by rw [hc.2.2.2.1]; exact hq.1.2.2.2
+  exact ⟨ht, C01_atomic p evs s h fs' hc ht⟩
+
+/-- **Failure queues nothing**: whenever qmail-queue exits non-zero (documented codes 11, 51–54,
+61–66, 81, 91) the entry is not visible, nor does any crash make it visible. -/
+theorem C01_failure (p : Params) (evs : List Ev) (s : St) (h : Run p evs s) (c : Nat) (hx : s.pc = .exited c)
+    (hc0 : c ≠ 0) (fs' : FS) (hc : CrashOf (applyAll {} evs) fs') : fs'.todoName = false := by
+  have hinv := run_inv p evs {} s {} (inv_init p) h
+  have hl : Leftover (applyAll {} evs) := by simpa [QInv, hx, hc0] using hinv
+  rw [hc.2.2.2.1]; exact hl.1
+
+/-- **Leftovers are collectable**: at every instant the set of files of the entry is one of
+nothing, the pid file, pid+mess, mess, mess+intd (all removed by qmail-clean/qmail-send after 36
+hours, C02) or the complete entry mess+intd+todo. -/
+theorem C01_leftovers (p : Params) (evs : List Ev) (s : St) (h : Run p evs s) (fs' : FS)
+    (hc : CrashOf (applyAll {} evs) fs') :
+    (fs'.todoName = true → fs'.intdName = true ∧ fs'.messName = true ∧ fs'.pidName = false) ∧
+    (fs'.intdName = true → fs'.messName = true) ∧ (fs'.pidName = true → fs'.intdName = false) := by
+  have := inv_names p s _ (run_inv p evs {} s {} (inv_init p) h)
+  obtain ⟨c1, c2, c3, c4, _, _⟩ := hc
+  rw [c1, c2, c3, c4]; exact this
+
+/-- **Malformed envelopes are refused with the documented codes**: a run ends with exit 91 only if
+the envelope has a wrong record letter, with exit 11 only if an address reaches `ADDR` = 1003
+bytes (`scan` is characterised by `C01_envelope_*` below); neither exit path runs `cleanup`, so by
+`C01_leftovers` what stays behind is mess+intd, which the daemon collects. -/
+theorem C01_refusal (p : Params) (evs : List Ev) (s : St) (h : Run p evs s) :
+    (s.pc = .exited 91 → (scan p.env).1 = .bad) ∧ (s.pc = .exited 11 → (scan p.env).1 = .long) := by
+  have hc := run_code p evs {} s (by simp [CodeInv]) h
+  constructor
+  · intro hx
+    have : (scan (p.env.take s.envRead)).1 = .bad := by simpa [CodeInv, hx] using hc
+    rw [scan_take p.env s.envRead (Or.inr (Or.inl this))]; exact this
+  · intro hx
+    have : (scan (p.env.take s.envRead)).1 = .long := by simpa [CodeInv, hx] using hc
+    rw [scan_take p.env s.envRead (Or.inr (Or.inr this))]; exact this
+
+/-- **Envelope format, completeness**: every envelope `F sender NUL (T rcpt NUL)* NUL` whose
+addresses are NUL-free and at most 1002 bytes long is accepted; what is stored is exactly the
+sender and the recipients in order; bytes after the terminator are ignored. -/
+theorem C01_envelope_complete (sender : Bytes) (rs : List Bytes) (rest : Bytes)
+    (hs : AddrOk Gen.ADDR sender) (hr : ∀ r ∈ rs, AddrOk Gen.ADDR r) :
+    scan (70 :: sender ++ 0 :: (encRcpts rs ++ 0 :: rest)) = (.done, 70 :: sender ++ 0 :: encRcpts rs) :=
+  scan_complete Gen.ADDR sender rs rest hs hr
+
+/-- **Envelope format, soundness**: only such envelopes are accepted. -/
+theorem C01_envelope_sound (env out : Bytes) (h : scan env = (.done, out)) :
+    ∃ sender rs rest, env = 70 :: sender ++ 0 :: (encRcpts rs ++ 0 :: rest) ∧ out = 70 :: sender ++ 0 :: encRcpts rs ∧
+      AddrOk Gen.ADDR sender ∧ ∀ r ∈ rs, AddrOk Gen.ADDR r := by
+  have := scan_sound_from Gen.ADDR (by decide) env .expectF out h
+  simpa using this
+
+/-- an address of 1003 non-NUL bytes is refused (exit 11), whatever follows -/
+theorem C01_envelope_long (a rest : Bytes) (h0 : (0 : Byte) ∉ a) (hl : a.length = Gen.ADDR) :
+    (scan (70 :: a ++ rest)).1 = .long := by
+  have key : ∀ (a : Bytes) (len : Nat) (w : Bytes), (0 : Byte) ∉ a → len + a.length = Gen.ADDR → a ≠ [] →
+      (scanFrom Gen.ADDR (.inAddr len) (a ++ w)).1 = .long := by
+    intro a
+    induction a with
+    | nil => intro _ _ _ _ h; exact absurd rfl h
+    | cons c a ih =>
+      intro len w h0 hl _
+      have hc : c ≠ 0 := fun hc => h0 (by simp [hc])
+      have ha : (0 : Byte) ∉ a := fun hm => h0 (List.mem_cons_of_mem _ hm)
+      simp only [List.length_cons] at hl
+      by_cases hlast : len + 1 = Gen.ADDR
+      · simp [scanFrom, sstep, hc, hlast, scanFrom_terminal Gen.ADDR .long _ (Or.inr (Or.inr rfl))]
+      · have hne : a ≠ [] := by intro h; subst h; simp at hl; omega
+        simp only [List.cons_append, scanFrom, sstep, hc, hlast, if_false]
+        exact ih (len + 1) w ha (by omega) hne
+  have hne : a ≠ [] := by intro h; subst h; simp [Gen.ADDR] at hl
+  simp only [scan, List.cons_append, scanFrom, sstep, if_true]
+  exact key a 0 rest h0 (by simpa using hl) hne
+
+/-- the address limit in the source is the documented one (1002 bytes accepted, 1003 refused) -/
+theorem C01_addr_limit : Gen.ADDR = ADDR_DOC := by decide
+
+/-- **The self-destruct timer**: the first call of every run arms `alarm(DEATH)` before any file
+exists, and `DEATH` (24 h) is below the age (`OSSIFIED`, 36 h) at which qmail-send and qmail-clean
+start collecting leftovers — constants regenerated from the three source files on every run. -/
+theorem C01_timer (p : Params) (e : Ev) (s : St) (h : accept p {} e = some s) :
+    e = .alarm Gen.DEATH ∧ Gen.DEATH < Gen.OSSIFIED_send ∧ Gen.OSSIFIED_send = Gen.OSSIFIED_clean := by
+  refine ⟨?_, by decide, by decide⟩
+  cases e with
+  | alarm n => simp [accept] at h; simp [h.1]
+  | write f bs => cases f <;> simp [accept] at h
+  | writeErr f i => cases f <;> simp [accept] at h
+  | fsync f ok => cases f <;> simp [accept] at h
+  | ftrunc f ok => cases f <;> simp [accept] at h
+  | unlinkF f ok => cases f <;> simp [accept] at h
+  | read fd n => simp [accept] at h
+  | _ => simp [accept] at h
+
+/-! ### Non-vacuity -/
+
+/-- a complete run for message "hi\n", envelope F a NUL T b NUL NUL (pid file taken at the first
+attempt, writes in two pieces, one EINTR) -/
+example : (acceptAll { msg := [104, 105, 10], env := [70, 97, 0, 84, 98, 0, 0], received := [82, 58, 10], hdr := [117, 49, 0, 112, 50, 0] } {}
+    [.alarm Gen.DEATH, .openPid 1 false, .openPid 2 true, .fstatPid true, .linkMess true, .unlinkPid true,
+     .read 0 3, .write .mess [82, 58], .writeErr .mess true, .read 0 0, .write .mess [10, 104, 105, 10], .fsync .mess true,
+     .openIntd true, .read 1 7, .write .intd [117, 49, 0, 112, 50, 0, 70, 97, 0, 84, 98, 0], .fsync .intd true,
+     .linkTodo true, .trigOpen true, .trigWrite, .trigClose, .exit 0]).map (·.pc) = some (.exited 0) := by
+  decide
+
+/-- a run that fails with a write error while copying the envelope and cleans up -/
+example : (acceptAll { msg := [104], env := [70, 0, 0], received := [82], hdr := [117] } {}
+    [.alarm Gen.DEATH, .openPid 1 true, .fstatPid true, .linkMess true, .unlinkPid true,
+     .read 0 1, .read 0 0, .write .mess [82, 104], .fsync .mess true, .openIntd true, .read 1 3,
+     .writeErr .intd false, .ftrunc .intd true, .unlinkF .intd true, .ftrunc .mess true, .unlinkF .mess true, .exit 53]).map (·.pc)
+    = some (.exited 53) := by
+  decide
+
+/-- dropping the fsync of the envelope is not a run of this program -/
+example : acceptAll { msg := [], env := [70, 0, 0], received := [82], hdr := [117] } {}
+    [.alarm Gen.DEATH, .openPid 1 true, .fstatPid true, .linkMess true, .unlinkPid true,
+     .read 0 0, .write .mess [82], .fsync .mess true, .openIntd true, .read 1 3, .write .intd [117, 70, 0],
+     .linkTodo true] = none := by
+  decide
+
+end Nq.Props.C01
